@@ -30,6 +30,7 @@
     connection-level check (checks/c01.py), not by the model.
 -/
 import AQ.Proofs.StreamSysLive
+import AQ.Proofs.StreamSysFair
 
 namespace AQ.Props.C01
 open AQ AQ.Stream AQ.RangeSet AQ.StreamSys
@@ -265,6 +266,36 @@ theorem c01_liveness_partial (id : Nat) (ops : List Op) (hw : WF (init id) ops)
     show s.endEvents = 0
     omega
 
+/-- Fuel-bounded liveness of the one-stream model.  `WFH` is `WF` plus ACK
+    honesty (a frame is reported ACKED only if the receiving endpoint processed
+    it).  From ANY reachable state before a reset in which no frame is in flight
+    unreported (`outstanding = []`: loss detection has declared every
+    undelivered frame lost — the hypothesis that stays), a fair schedule of
+    exactly `2 · (number of pending ranges)` steps — [serve the stream with room
+    for the frame and flow-control credit up to the written length, deliver the
+    frame just emitted], repeated — is admissible and ends in a state in which
+    EVERY written byte has been delivered to the application, in order
+    (`c01_prefix`), whatever was lost, duplicated or reordered before.
+    (The end-of-stream event is `c01_fin_progress`.)  Still `_partial`: loss
+    detection, builder space / credit and ACK honesty are hypotheses of the
+    schedule, and the statement is about the model's schedule, not about the
+    timers that produce it. -/
+theorem c01_liveness_bounded_partial (id : Nat) (ops : List Op) (hw : WFH (init id) ops)
+    (hr : (run (init id) ops).ghost.reset = false) (hgone : (run (init id) ops).recvGone = false)
+    (hout : (run (init id) ops).ghost.outstanding = [])
+    (hid : id < 2 ^ 62) (hlen : (run (init id) ops).ghost.written.length < 2 ^ 62) :
+    ∃ sched : List Op,
+      sched.length = 2 * (run (init id) ops).send.pending.length ∧
+      WFH (init id) (ops ++ sched) ∧
+      (run (init id) (ops ++ sched)).ghost.written = (run (init id) ops).ghost.written ∧
+      (run (init id) (ops ++ sched)).deliveredBytes = (run (init id) ops).ghost.written := by
+  have hf := fair_of_reachable id ops hw hr hgone hout hid hlen
+  obtain ⟨w, f, p, g⟩ := fair_run _ hf rfl
+  refine ⟨fairOps (run (init id) ops).send.pending.length (run (init id) ops), fairOps_length _ _,
+    WFH_append _ _ _ hw w, ?_, ?_⟩
+  · rw [StreamSys.run_append]; exact g
+  · rw [StreamSys.run_append, fair_done f p, g]
+
 /-! ## The behaviour before the fixes (quirk flags), by evaluation -/
 
 /-- a FIN frame delivered twice -/
@@ -323,6 +354,16 @@ example : WF (init 0) exOps ∧ (run (init 0) exOps).deliveredBytes = [1, 2, 3, 
     (run (init 0) (exOps.take 13)).deliveredBytes = [] ∧
     (run (init 0) (exOps.take 14)).deliveredBytes = [1, 2, 3, 4, 5, 6] := by decide
 
+/-- the premises of `c01_liveness_bounded_partial` hold after: 4 bytes in two
+    frames, the second delivered and (honestly) acknowledged, the first lost and
+    declared lost; the schedule has 2 steps and delivers everything -/
+def fairEx : List Op :=
+  [ .appWrite [1, 2, 3, 4] false, .emit 6 100, .emit 100 100, .deliver 1, .ackFrame 1, .loseFrame 0 ]
+
+example : WFH (init 0) fairEx ∧ (run (init 0) fairEx).ghost.outstanding = [] ∧
+    (run (init 0) fairEx).send.pending = [⟨0, 2⟩] ∧ (run (init 0) fairEx).deliveredBytes = [] ∧
+    (run (init 0) (fairEx ++ fairOps 1 (run (init 0) fairEx))).deliveredBytes = [1, 2, 3, 4] := by decide
+
 /-- the premises of `c01_progress` hold in the state after the loss -/
 example : (run (init 0) (exOps.take 10)).send.pending = [⟨0, 2⟩] ∧
     (run (init 0) (exOps.take 10)).recv.bufStart = 0 ∧
@@ -339,6 +380,7 @@ end AQ.Props.C01
 #print axioms AQ.Props.C01.c01_progress
 #print axioms AQ.Props.C01.c01_fin_progress
 #print axioms AQ.Props.C01.c01_liveness_partial
+#print axioms AQ.Props.C01.c01_liveness_bounded_partial
 #print axioms AQ.Props.C01.c01_fin_once_counterexample
 #print axioms AQ.Props.C01.c01_fin_sound_counterexample
 #print axioms AQ.Props.C01.c01_conservation_counterexample
